@@ -1149,10 +1149,13 @@ def FIBER(
 
     A = input.signal
 
+    def P_tot(A):  # total instantaneous power (sum over polarizations when there are two)
+        return (np.abs(A) ** 2).sum(axis=0) if A.ndim > 1 else np.abs(A) ** 2
+
     h = (
         length
         if (beta_2 == 0 and beta_3 == 0) or gamma == 0
-        else phi_max / (gamma * (np.abs(A[0]) ** 2 + np.abs(A[1]) ** 2)).max()
+        else phi_max / (gamma * P_tot(A)).max()
     )
 
     x_length = h
@@ -1171,7 +1174,7 @@ def FIBER(
             barra_progreso.update(100 * h / length)
 
         h = (
-            phi_max / (gamma * (np.abs(A[0]) ** 2 + np.abs(A[1]) ** 2)).max()
+            phi_max / (gamma * P_tot(A)).max()
             if gamma != 0
             else length
         )
